@@ -233,9 +233,9 @@ def rtspResource (e : Env) (ss : SSess) (ws : Option WsConn) (rq : RtspReq) : Li
   | .announce => e.canon rq.urlPath
   | _ => ss.resource
 
-def judgeRtsp (e : Env) (sw : SWorld) (ss : SSess) (ws : Option WsConn) (rq : RtspReq) (out : RtspOut) : Verdict :=
-  if !sw.authOn then .ok else
-  let caller := rtspCaller e sw ws rq.cred
+/-- the verdict on one RTSP exchange, for a given authenticated caller -/
+def judgeRtspWith (e : Env) (sw : SWorld) (ss : SSess) (ws : Option WsConn) (rq : RtspReq) (out : RtspOut)
+    (caller : Option (List Char)) : Verdict :=
   match out.eff with
   | .describe k | .play k => if mayPull e sw caller k then .ok else .unsound
   | .publish k => if mayPush e sw caller k then .ok else .unsound
@@ -243,9 +243,12 @@ def judgeRtsp (e : Env) (sw : SWorld) (ss : SSess) (ws : Option WsConn) (rq : Rt
     if out.code = 401 || out.code = 403 then
       match needRight ss rq.method, caller with
       | some act, some n =>
-        if allowed e sw.hist n act (e.canon (rtspResource e ss ws rq)) then .incomplete else .ok
+        if allowed e sw.hist n act (rtspResource e ss ws rq) then .incomplete else .ok
       | _, _ => .ok
     else .ok
+
+def judgeRtsp (e : Env) (sw : SWorld) (ss : SSess) (ws : Option WsConn) (rq : RtspReq) (out : RtspOut) : Verdict :=
+  if !sw.authOn then .ok else judgeRtspWith e sw ss ws rq out (rtspCaller e sw ws rq.cred)
 
 def SSess.step (e : Env) (ss : SSess) (ws : Option WsConn) (rq : RtspReq) (out : RtspOut) : SSess :=
   if out.code = 401 || out.code = 455 then ss
